@@ -115,6 +115,9 @@ package agent
 //@ safety on
 //@ requires !held(a.mu)
 //@ ensures [refuse-second] old(a.started) ==> err == ErrAlreadyStarted && spawned() == 0 && poolcalls == old(poolcalls)
+// the agent is claimed before anything slow happens: a second Start that begins while this one talks to the pool is refused
+//@ callreq Connect [claimed-before-talking-to-the-pool] : a.started
+//@ callreq UpdatePeers [claimed-before-talking-to-the-pool] : a.started
 //@ ensures [one-loop]      err == nil ==> a.started && spawned() == 1 && !old(a.started)
 //@ ensures [clean-failure] err != nil && !old(a.started) ==> !a.started && spawned() == 0
 //@ ensures [registers]     err == nil ==> poolcalls >= old(poolcalls) + 1
